@@ -450,38 +450,51 @@ func (c *Client) Tx(ctx context.Context, hash []byte, prove bool) (*ctypes.Resul
 		return res, err
 	}
 
+	if err := c.verifyTx(ctx, res); err != nil {
+		return nil, err
+	}
+
+	return res, nil
+}
+
+// verifyTx verifies a transaction that comes with an inclusion proof against
+// the data hash of the trusted header at the transaction's height.
+func (c *Client) verifyTx(ctx context.Context, res *ctypes.ResultTx) error {
 	// Validate res.
 	if res.Height <= 0 {
-		return nil, errNegOrZeroHeight
+		return errNegOrZeroHeight
 	}
 
 	// Update the light client if we're behind.
 	l, err := c.updateLightClientIfNeededTo(ctx, &res.Height)
 	if err != nil {
-		return nil, err
+		return err
 	}
 
 	// Validate the proof.
 	if err := res.Proof.Validate(l.DataHash); err != nil {
-		return nil, err
+		return err
 	}
 
 	// The proof only shows that res.Proof.Data is the transaction at position
 	// res.Proof.Proof.Index under the trusted data hash: the rest of the
 	// response must describe that very transaction.
 	if !bytes.Equal(res.Tx, res.Proof.Data) {
-		return nil, fmt.Errorf("tx %X does not match the proven tx %X", []byte(res.Tx), []byte(res.Proof.Data))
+		return fmt.Errorf("tx %X does not match the proven tx %X", []byte(res.Tx), []byte(res.Proof.Data))
 	}
 	if txH := res.Tx.Hash(); !bytes.Equal(res.Hash, txH) {
-		return nil, fmt.Errorf("hash %X does not match the hash of the proven tx %X", res.Hash, txH)
+		return fmt.Errorf("hash %X does not match the hash of the proven tx %X", res.Hash, txH)
 	}
 	if int64(res.Index) != res.Proof.Proof.Index {
-		return nil, fmt.Errorf("index %d does not match the proven index %d", res.Index, res.Proof.Proof.Index)
+		return fmt.Errorf("index %d does not match the proven index %d", res.Index, res.Proof.Proof.Index)
 	}
 
-	return res, nil
+	return nil
 }
 
+// TxSearch calls rpcclient#TxSearch method and then verifies the proof of every
+// returned transaction if such were requested. Which (and how many)
+// transactions match the query cannot be verified.
 func (c *Client) TxSearch(
 	ctx context.Context,
 	query string,
@@ -489,7 +502,21 @@ func (c *Client) TxSearch(
 	page, perPage *int,
 	orderBy string,
 ) (*ctypes.ResultTxSearch, error) {
-	return c.next.TxSearch(ctx, query, prove, page, perPage, orderBy)
+	res, err := c.next.TxSearch(ctx, query, prove, page, perPage, orderBy)
+	if err != nil || !prove {
+		return res, err
+	}
+
+	for i, tx := range res.Txs {
+		if tx == nil {
+			return nil, fmt.Errorf("nil tx %d", i)
+		}
+		if err := c.verifyTx(ctx, tx); err != nil {
+			return nil, fmt.Errorf("tx %d: %w", i, err)
+		}
+	}
+
+	return res, nil
 }
 
 func (c *Client) BlockSearch(
